@@ -199,11 +199,6 @@ Print Assumptions c09_rerun_iff_definition.
 
 (* ---- non-vacuity: concrete instances meeting the hypotheses ---- *)
 
-(* cc -c a.c -o a.o with one environment entry and a makefile-style dependency file *)
-Definition ex_def : cdef :=
-  mkCdef [67;49] [[97;46;99]; [104]] [[97;46;111]] false true false []
-         [[99;99]; [45;99]; [97;46;99]] [([75], [86])] [[97;46;100]] 1 true false.
-
 (* the exact token order of the current code *)
 Example c09_tokens_instance :
   sig_tokens ex_def =
@@ -226,14 +221,9 @@ Example c09_boundary_instances :
   sig_tokens (set_outputs (set_inputs ex_def ([[97;46;99]] ++ [[104]])) []) <> sig_tokens (set_outputs (set_inputs ex_def [[97;46;99]]) [[104]]) /\
   sig_tokens (set_deps_style ex_def 1) <> sig_tokens (set_deps_style ex_def 2) /\
   sig_tokens (flip_flag ex_def 4) <> sig_tokens ex_def.
-Proof.
-  split; [apply move_input_to_output | split; [apply change_deps_style; [reflexivity | discriminate] | apply flip_one_flag; right; split; [lia | reflexivity]]].
-Qed.
+Proof. exact boundary_instances. Qed.
 
 (* a stored successful result with one output; unchanged output: skipped; changed size: re-executed *)
-Definition ex_info (size : N) : fileinfo := mkFI 1 7 33188 size 100 0 (repeat 0 32).
-Definition ex_stored : stored := mkStored 5 false 42 (mkBV VSuccessfulCommand 0 [ex_info 10] []).
-
 Example c09_rerun_instance_unchanged :
   reexecutes false (rerun_decision ex_stored 42 false [mkOnode false false (ex_info 10)]) = Some false.
 Proof. vm_compute. reflexivity. Qed.
@@ -241,10 +231,7 @@ Proof. vm_compute. reflexivity. Qed.
 Example c09_rerun_instance_output_changed :
   reexecutes false (rerun_decision ex_stored 42 false [mkOnode false false (ex_info 11)]) = Some true
   /\ output_differs [mkOnode false false (ex_info 11)] (bv_infos (st_value ex_stored)).
-Proof.
-  split; [vm_compute; reflexivity|].
-  exists 0%nat, (mkOnode false false (ex_info 11)), (ex_info 10). repeat split; vm_compute; reflexivity.
-Qed.
+Proof. exact rerun_instance_output_changed. Qed.
 
 Example c09_rerun_instance_signature_changed :
   reexecutes false (rerun_decision ex_stored 43 false [mkOnode false false (ex_info 10)]) = Some true.
@@ -254,7 +241,7 @@ Proof. vm_compute. reflexivity. Qed.
 Example c09_rerun_hypotheses_instance :
   st_built_at ex_stored <> 0 /\ st_cancelled ex_stored = false /\
   length (bv_infos (st_value ex_stored)) = length [mkOnode false false (ex_info 10)].
-Proof. repeat split. discriminate. Qed.
+Proof. exact rerun_hypotheses_instance. Qed.
 
 (* the over-read the length premise excludes: two declared outputs, one stored info *)
 Example c09_overread_instance :
